@@ -308,6 +308,43 @@ func vsCatalog(dir string) []vsSnap {
 	return out
 }
 
+// vsResolvedChain asks package snapshot which WAL files make up the newest snapshot, in replay order
+// (SnapshotCatalog.Scan + ResolveFiles, what Store.Open streams), and names each file by the snapshot
+// directory it lives in (position in cat, 0 = newest) and its rank by name inside that directory.
+func vsResolvedChain(dir string, cat []vsSnap) [][2]int {
+	if len(cat) == 0 {
+		return nil
+	}
+	sset, err := (&snapshot.SnapshotCatalog{}).Scan(dir)
+	if err != nil {
+		return [][2]int{{-1, -1}}
+	}
+	_, wfs, err := sset.ResolveFiles(cat[0].ID)
+	if err != nil {
+		return [][2]int{{-1, -1}}
+	}
+	var out [][2]int
+	for _, wf := range wfs {
+		owner := filepath.Base(filepath.Dir(wf.Path))
+		depth := -1
+		for i, c := range cat {
+			if c.ID == owner {
+				depth = i
+			}
+		}
+		names, _ := filepath.Glob(filepath.Join(filepath.Dir(wf.Path), "*.wal"))
+		sort.Strings(names)
+		rank := -1
+		for i, nm := range names {
+			if nm == wf.Path {
+				rank = i
+			}
+		}
+		out = append(out, [2]int{depth, rank})
+	}
+	return out
+}
+
 // vsRestoreNewest materialises the newest snapshot of the node's snapshot store into dst
 // (Open + snapshot.Restore, the path a restart or an install uses).  ok=false when the store is empty.
 func vsRestoreNewest(ss raft.SnapshotStore, dir string, dst string) (ok bool, idx uint64, err error) {
